@@ -46,7 +46,10 @@ func genOsmApi(repo string) *genFile {
 	}
 	g.pf("structure Endpoint where\n  name : String\n  recipe : String        -- `sprintf` or `concat`\n  format : String        -- format literal, or the literal pieces of the concatenation joined by `|`\n  args : List String     -- argument expressions after the format\n  option : String        -- FeatureOption | NotesOption | none\n  selector : String      -- what is returned on success\n  guard : String         -- length guard before the selector, or \"\"\n  deriving DecidableEq, Repr\n\n")
 
-	type ep struct{ name, recipe, format, option, selector, guard string; args []string }
+	type ep struct {
+		name, recipe, format, option, selector, guard string
+		args                                          []string
+	}
 	var eps []ep
 	// helper: methods that delegate their fetch to another method (getChangeset)
 	var names []string
